@@ -1,7 +1,7 @@
 """Generator for `rw …` exchanges through the plugin chain (C14, C15, C17, C01 wrappers)."""
 from .lbgen import enc
 
-CTS = ["text/plain", "text/html; charset=utf-8", "application/json", "image/png", "text/css"]
+CTS = ["text/plain", "text/html; charset=utf-8", "application/json", "image/png", "text/css", "text/event-stream", "application/x-ndjson"]
 STATUSES = [200, 200, 200, 201, 204, 206, 301, 302, 304, 400, 404, 500, 503]
 AES = ["gzip", "gzip, deflate, br", "deflate, gzip", "br", "-", "GZIP", "gzip;q=1.0", " gzip ", "x-gzip", "deflate,gzip,br", "identity"]
 
@@ -62,3 +62,51 @@ def response_ops(rng, total=None, status=None, ct=None, with_cl=None, late_heade
 
 def line(chain, method, ae, key, reqlen, mode, ops):
     return "rw %s %s %s %s %d %s %s" % (chain or "none", method, enc(ae) if ae != "-" else "-", key, reqlen, mode, ";".join(ops) or "fl")
+
+
+def session_episode(rng, chain, n=None, limit=None, ae=None):
+    """Several exchanges through ONE instance of the chain (`rws` + `rw @`), each repeated through a
+    fresh instance: what a client gets must not depend on the exchanges the instance served before —
+    an over-limit response, an exchange the backend cut short, a HEAD, then an ordinary one."""
+    ep = ["# session", "rws %s" % chain]
+    n = n or rng.randint(3, 5)
+    for i in range(n):
+        kind = rng.choice(["big", "abort", "normal", "normal", "head"]) if i < n - 1 else "normal"
+        method = "HEAD" if kind == "head" else rng.choice(["GET", "GET", "POST"])
+        total = rng.choice([0, 5, 50, 600, 5000])
+        if kind == "big" and limit:
+            total = 3 * limit + 7
+        ops = response_ops(rng, total=total, late_headers=False, status=rng.choice([200, 200, 201, 404]) if kind != "abort" else 200)
+        # handlers that call WriteHeader once (as ReverseProxy does): a second call is outside the claims
+        seen_wh, ops1 = False, []
+        for o in ops:
+            if o.startswith("wh:") and not o.startswith("wh:1"):
+                if seen_wh:
+                    continue
+                seen_wh = True
+            ops1.append(o)
+        ops = ops1
+        if kind == "abort":
+            ops = [o for o in ops if not o.startswith("sh:Content-Length")]
+            ops = ops + ["w:700:3", "fl", "ab"]
+        a = ae if ae is not None else rng.choice(["gzip", "-"])
+        reqlen = rng.choice([0, 3]) if method == "POST" else 0
+        rest = line("X", method, a, "-", reqlen, "cl", ops).split(" ", 2)[2]
+        ep.append("rw @ " + rest)
+        ep.append("rw %s %s" % (chain, rest))
+    return ep
+
+
+def session_oracle(ep, outs):
+    if not ep or ep[0] != "# session":
+        return None
+    lines = [l for l in ep if l and not l.startswith("#")]
+    fails = []
+    for i in range(1, len(lines) - 1, 2):
+        if i + 1 >= len(outs):
+            break
+        a, b = outs[i], outs[i + 1]
+        if a != b:
+            fails.append("the same exchange through a used plugin instance and through a fresh one differ: used=%s fresh=%s (%s)" % (
+                a[:160], b[:160], lines[i][:120]))
+    return fails
